@@ -5,7 +5,12 @@ import (
 	"os"
 
 	"verif/fw"
-	_ "verif/props"
+	"verif/props"
 )
 
-func main() { os.Exit(fw.Main(os.Args[1:])) }
+func main() {
+	if len(os.Args) >= 4 && os.Args[1] == "c13helper" {
+		os.Exit(props.C13Helper(os.Args[2], os.Args[3] == "on"))
+	}
+	os.Exit(fw.Main(os.Args[1:]))
+}
